@@ -291,3 +291,152 @@ func VH05b_raw() {
 	}
 	sock.Close()
 }
+
+// VH05d_burst: a REP / RESPONDENT socket or context holds request A (from
+// connection p0) unanswered. Two of {it sends its reply; it calls Recv again;
+// request B arrives on connection p1; connection p0 goes away} happen at the
+// same moment, under every schedule in which one goroutine stalls at one
+// synchronisation point until the others are at rest. Whatever the order:
+// every frame written to a connection is (routing header of a request that
+// arrived on THAT connection and was handed to the application) + (a reply body
+// the application sent), no request is answered twice -- and a fresh exchange
+// afterwards is routed exactly.
+func VH05d_burst() {
+	proto := cooked[verif.Choice("proto", 2)]
+	lab := "C05/" + proto + "/burst"
+	sock := vp.New(proto)
+	side := vt.Listen(sock, "a")
+	pipes := []*vt.Pipe{side.Peer("p0"), side.Peer("p1")}
+	s := &sctx{name: "sock", sock: sock}
+	if verif.Choice("api", 2) == 1 {
+		c1, err := sock.OpenContext()
+		verif.Assert(err == nil, lab+"/open-context")
+		s = &sctx{name: "ctx", c: c1}
+	}
+	var reqs []*reqrec
+	mk := func(p *vt.Pipe, tag byte, hop byte) *reqrec {
+		hdr := []byte{0, 0, hop, tag, 0x80, 0, 0, tag}
+		r := &reqrec{tag: tag, pipe: p, hdr: hdr}
+		reqs = append(reqs, r)
+		p.Deliver(append(append([]byte{}, hdr...), tag))
+		return r
+	}
+	mk(pipes[0], 1, 7)
+	verif.Quiesce()
+	m0, e0 := s.recvMsg()
+	verif.Assert(e0 == nil && len(m0.Body) == 1 && m0.Body[0] == 1, lab+"/request-A")
+	if e0 != nil {
+		return
+	}
+	reqs[0].got = true
+	if verif.Choice("free-request", 2) == 1 {
+		m0.Free()
+	}
+	// request B may already be waiting in the socket when things start
+	bQueued := verif.Choice("b-queued", 2) == 1
+	if bQueued {
+		mk(pipes[1], 2, 9)
+		verif.Quiesce()
+	}
+	K := verif.Param("K", 2)
+	var sg, rg *verif.G
+	var serr, rerr error
+	var rm *mangos.Message
+	issue := func(ev int) {
+		switch ev {
+		case 0:
+			m := mangos.NewMessage(1)
+			m.Body = append(m.Body, 201)
+			sg = verif.Go("send", func() { serr = s.sendMsg(m) })
+		case 1:
+			rg = verif.Go("recv", func() { rm, rerr = s.recvMsg() })
+		case 2:
+			verif.Assume(!bQueued)
+			mk(pipes[1], 2, 9)
+		case 3:
+			pipes[0].Drop()
+		}
+	}
+	last := -1
+	for k := 0; k < K; k++ {
+		ev := verif.Choice("ev", 4)
+		verif.Assume(ev > last)
+		last = ev
+		issue(ev)
+	}
+	verif.Quiesce()
+	if rg != nil && rg.Done() && rerr == nil {
+		r := find(reqs, rm.Body[0])
+		verif.Assert(len(rm.Body) == 1 && r != nil && !r.got, lab+"/recv-returned-something-that-is-not-a-new-request")
+		if r != nil {
+			r.got = true
+		}
+	}
+	if sg != nil {
+		verif.Assert(sg.Done(), lab+"/send-returns")
+		verif.Assert(serr == nil || serr == mangos.ErrProtoState || serr == mangos.ErrClosed, lab+"/unexpected-send-error")
+	}
+	check := func() {
+		answered := map[byte]int{}
+		for _, p := range pipes {
+			for _, rec := range p.Sent {
+				var match *reqrec
+				for _, r := range reqs {
+					if r.pipe == p && r.got && verif.BytesEq(rec.H, r.hdr) {
+						match = r
+					}
+				}
+				verif.Assert(match != nil, lab+"/reply-header-is-not-that-of-a-request-received-from-this-connection")
+				verif.Assert(len(rec.B) == 1 && rec.B[0] > 200, lab+"/reply-body-is-not-what-the-application-sent")
+				if match != nil {
+					answered[match.tag]++
+					verif.Assert(answered[match.tag] <= 1, lab+"/request-answered-twice")
+				}
+			}
+		}
+	}
+	check()
+	verif.Reach("burst-done")
+	// epilogue: a fresh request on the surviving connection, received and answered
+	if rg != nil && !rg.Done() {
+		// the outstanding Recv takes it
+		c := mk(pipes[1], 3, 11)
+		verif.Quiesce()
+		verif.Assert(rg.Done() && rerr == nil && len(rm.Body) == 1 && rm.Body[0] == 3, lab+"/waiting-recv-did-not-get-the-new-request")
+		c.got = true
+	} else {
+		c := mk(pipes[1], 3, 11)
+		verif.Quiesce()
+		// earlier unreceived requests may come first
+		for i := 0; i < 3; i++ {
+			m, e := s.recvMsg()
+			verif.Assert(e == nil && len(m.Body) == 1, lab+"/recv-of-fresh-request")
+			if e != nil || len(m.Body) != 1 {
+				return
+			}
+			r := find(reqs, m.Body[0])
+			verif.Assert(r != nil && !r.got, lab+"/request-delivered-twice-or-invented")
+			if r != nil {
+				r.got = true
+			}
+			if r == c {
+				break
+			}
+		}
+		verif.Assert(c.got, lab+"/fresh-request-not-delivered")
+	}
+	n1 := len(pipes[1].Sent)
+	n0 := len(pipes[0].Sent)
+	m := mangos.NewMessage(1)
+	m.Body = append(m.Body, 203)
+	verif.Assert(s.sendMsg(m) == nil, lab+"/fresh-reply-send")
+	verif.Quiesce()
+	verif.Assert(len(pipes[1].Sent) == n1+1 && len(pipes[0].Sent) == n0, lab+"/fresh-reply-not-transmitted-once-on-its-connection")
+	if len(pipes[1].Sent) == n1+1 {
+		rec := pipes[1].Sent[n1]
+		verif.Assert(verif.BytesEq(rec.H, reqs[len(reqs)-1].hdr) && len(rec.B) == 1 && rec.B[0] == 203, lab+"/reply-bytes-are-request-header-plus-body")
+	}
+	check()
+	verif.Reach("burst-epilogue")
+	sock.Close()
+}
